@@ -96,7 +96,7 @@ func main() {
 		}
 		fmt.Println("replaying", sig, "class", rc.Class)
 		v := describe(rc.Source)
-		if v.Kind == "violation" || v.Kind == "known" {
+		if v.Kind != "pass" && v.Kind != "skip" {
 			os.Exit(1)
 		}
 		os.Exit(0)
@@ -153,6 +153,7 @@ func main() {
 	nEval, nAcc, nRej, nSkip, nPass, nDyn, nWrites := 0, 0, 0, 0, 0, 0, 0
 	sampleByFam := map[string]bool{}
 	harnessErr := 0
+	nAmbig := 0
 
 	handle := func(src, class string, r Real) {
 		v := Judge(src, r)
@@ -186,9 +187,11 @@ func main() {
 			if !sampleByFam[fam] && v.Writes > 1 {
 				sampleByFam[fam] = true
 				mu.Unlock()
-				run.Sample(map[string]any{"class": class, "source": src, "disasm": r.Disasm, "bm_outputs_per_tick": r.Trace})
+				run.Sample(map[string]any{"class": class, "source": src, "disasm": r.Disasm, "bm_output_streams": streams(r.Trace)})
 				mu.Lock()
 			}
+		case "known-ambiguous":
+			nAmbig++
 		case "known":
 			for _, s := range v.Sigs {
 				knownCases[s]++
@@ -246,6 +249,7 @@ func main() {
 	}
 
 	exhaustive := true
+	prunedNotWF := 0
 	generated := 0
 	seen := map[[16]byte]bool{}
 	cur := job{}
@@ -260,6 +264,13 @@ func main() {
 		seen[h] = true
 		if time.Now().After(deadline) {
 			exhaustive = false
+			return
+		}
+		if ps, err := ParseSource(src); err != nil {
+			prunedNotWF++
+			return
+		} else if ok, _ := WellFormed(ps); !ok {
+			prunedNotWF++ // e.g. a program made only of jumps: no register, refused by design
 			return
 		}
 		generated++
@@ -279,6 +290,7 @@ func main() {
 
 	run.Set("evaluations", nEval)
 	run.Set("generated", generated)
+	run.Set("pruned_not_wellformed", prunedNotWF)
 	run.Set("accepted", nAcc)
 	run.Set("rejected", nRej)
 	run.Set("rejected_by_error_class", rejectClasses)
@@ -290,6 +302,7 @@ func main() {
 	run.Set("evaluations_by_family", famEval)
 	run.Set("passed_by_family", famPass)
 	run.Set("cases_attributed_to_known_defects", knownCases)
+	run.Set("cases_explained_by_several_known_defects_each_sufficient", nAmbig)
 	run.Set("exhaustive", exhaustive)
 	run.Set("bounds", bounds)
 	run.Set("workers", workers)
@@ -303,8 +316,19 @@ func main() {
 	run.Assume("macro parameters are written NASM-style (%1..%n): pkg/basm documents `%macro name nparams` only, and expandMacro never looks at the arguments, so no spelling can work")
 	run.Assume("pseudo `mov reg, number` is enumerated with DisableDynamicalMatching active (what `basm -disable-dynamical-matching` does); in the default configuration it needs a chooser criterion by design")
 	run.Assume("programs whose reference execution leaves the program (falls off the end) are compared only up to that tick")
-	run.Assume("handshaked opcodes (r2owa/i2rw, sync iomode) are covered by the static oracle only; and/or/xor/not have no HLAssemblerMatch pattern and cannot be written in BASM at all")
+	run.Assume("handshaked opcodes (r2owa/i2rw, iomode:sync): static oracle everywhere; dynamic oracle only on CP-to-CP links, as timing-independent value sequences (blocking send/receive); handshakes with the outside of the BM are not simulated. and/or/xor/not have no HLAssemblerMatch pattern and cannot be written in BASM at all")
 	run.Finish()
+}
+
+func streams(tr [][]uint64) []string {
+	var out []string
+	if len(tr) == 0 {
+		return out
+	}
+	for k := range tr[0] {
+		out = append(out, strings.Trim(fmt.Sprint(col(tr, k)), "[]"))
+	}
+	return out
 }
 
 func hash16(s string) [16]byte {
